@@ -588,6 +588,16 @@ class Gen:
                 dr = self.make_data(self._reporting(ob, obs="present", span=r.choice(["week", "month"])
                                                     if not (ob.get("src") == "sample" and ob["fam"] == "billing") else "partial"))
                 self.predict(m2, dr, ignore=True)
+                # the re-fitted object is stored and read back: the gate state of the copy is that of the live object
+                # (emitted without drawing from the PRNG, so that nothing else in the schedule moves)
+                docr = f"doc{self.n_docs}"
+                self.n_docs += 1
+                self.emit("STORE", m=m2, doc=docr, form="json")
+                self.docs[docr] = dict(self.models[m2])
+                self.emit("LOAD", doc=docr, m=m1, form="json")
+                self.models[m1] = dict(self.models[m2], restored=True)
+                self.emit("PREDICT", m=m1, d=dr, ignore=False)
+                self.emit("PREDICT", m=m1, d=dr, ignore=True)
                 # the unchanged document read once more: what the gate knows must be what the document says
                 m5 = self.load(doc2, mslot=m1, form="json")
                 self.predict(m5, ds[0], ignore=False)
